@@ -10,7 +10,7 @@ RECL_ALL = RECL_QUICK + [('HEs<3>', '_he'), ('NEBR', '_nebr'), ('DEBRA', '_debra
 def harnesses(tier):
     return [('uq', ('XV_RECL=%s' % r,), False, sfx) for r, sfx in (RECL_ALL if tier == 'thorough' else RECL_QUICK)] + [('uq', ('XV_RECL=GC',), False, '_gc')]
 HARNESSES = harnesses('quick')
-PROPERTY_FILES = ['Properties_C06', 'Properties_C06_kfb']
+PROPERTY_FILES = ['Properties_C06', 'Properties_C06_kfb', 'Properties_C06_kfq']
 THEOREM_NOTES = {
     'scope': 'proved on a step-level model of kirsch_bounded_kfifo_queue (any k >= 1, any segment count >= 1, random start offsets as oracle values) tied by trace correspondence: conservation (no value popped twice, only pushed values, a value whose push returned true is never stranded outside the head..tail region, at quiescence stored ++ popped is a permutation of the committed values), pops take from the head segment (the part of the k-relaxation that is true of single steps), the empty verdict (no committed value stored at the instant of the re-check - stronger than fewer than k), the true weaker full verdict, slot history / tags, the generated (index, tag) word, solo termination with an explicit bound. The premature-full known finding is reproduced as a refuted lemma with a schedule that replays on the code. k-FIFO linearizability of whole histories and the unbounded kirsch_kfifo_queue are covered by the search with the exact k-FIFO oracle',
 }
@@ -55,22 +55,22 @@ def big_corpus(ctx, H):
         if st != 0:
             report_impl(ctx, st, det, txt[:300] + ' ... (corpus/C06/thorough/%s)' % f, {'corpus': f})
 
-def kfb_correspondence(ctx, harness, cases, per_case):
+def kfb_correspondence(ctx, harness, cases, per_case, model='kfb', label='kirsch_bounded', nchoices=80):
     """xvlib.correspondence with a recorded `choices` line (the random start offsets) in every case file"""
     import hashlib, concurrent.futures as cf
     wd, driver, rng = ctx['wd'], ctx['driver'], ctx['rng']
     jobs = []; cov = 0
     for ci, (cfg, prog) in enumerate(cases):
-        choices = [rng.randrange(0, 200) for _ in range(80)]
+        choices = [rng.randrange(0, 200) for _ in range(nchoices)]
         base = wd.write(X.case_text(cfg, prog, None, choices))
-        scheds, c = X.model_schedules(driver, 'kfb', base, per_case, ctx['seed'] * 7919 + 13 + ci)
+        scheds, c = X.model_schedules(driver, model, base, per_case, ctx['seed'] * 7919 + 13 + ci)
         cov = max(cov, c)
         for s_ in scheds: jobs.append((cfg, prog, s_, choices))
     st = {'cases': len(jobs), 'programs': len(cases), 'steps': 0, 'mismatches': [], 'impl_violations': [], 'model_pcs_covered': cov, 'distinct': 0, 'samples': []}
     def one(job):
         cfg, prog, s_, choices = job
         txt = X.case_text(cfg, prog, s_, choices)
-        return X.correspond_one(driver, 'kfb', harness, wd.write(txt)), txt
+        return X.correspond_one(driver, model, harness, wd.write(txt)), txt
     with cf.ThreadPoolExecutor(max_workers=X.NPROC) as ex:
         for (same, diff, n, ist, idet), txt in ex.map(one, jobs):
             st['steps'] += n
@@ -79,11 +79,11 @@ def kfb_correspondence(ctx, harness, cases, per_case):
             if len(st['samples']) < 2: st['samples'].append({'case': txt, 'agree': same, 'trace_lines': n})
     st['distinct'] = len(set(hashlib.sha1(X.case_text(c, p, s_, ch).encode()).hexdigest() for c, p, s_, ch in jobs))
     c = ctx['cov'].setdefault('correspondence', {})
-    c['kirsch_bounded'] = {k: st[k] for k in ('cases', 'programs', 'steps', 'model_pcs_covered', 'distinct')}
-    c['kirsch_bounded']['mismatches'] = len(st['mismatches'])
+    c[label] = {k: st[k] for k in ('cases', 'programs', 'steps', 'model_pcs_covered', 'distinct')}
+    c[label]['mismatches'] = len(st['mismatches'])
     ctx['cov']['samples'] += st['samples'][:1]
     ctx['cov']['traces_validated_against_impl'] = ctx['cov'].get('traces_validated_against_impl', 0) + st['cases'] - len(st['mismatches'])
-    log('correspondence[kirsch_bounded]: %d cases (%d programs), %d trace lines, %d mismatches, %d impl violations' % (st['cases'], st['programs'], st['steps'], len(st['mismatches']), len(st['impl_violations'])))
+    log('correspondence[%s]: %d cases (%d programs), %d trace lines, %d mismatches, %d impl violations' % (label, st['cases'], st['programs'], st['steps'], len(st['mismatches']), len(st['impl_violations'])))
     for v in st['impl_violations'][:2]:
         f = dict(v); extra = classify_for('uq_gc')(ctx, harness, f) if 'classify_for' in globals() else None
         report_impl(ctx, v['status'], v['detail'], v['case'], extra)
@@ -107,6 +107,15 @@ def run(ctx):
             cases.append((cfgm, prog))
     st = kfb_correspondence(ctx, Hgc, cases, 8 if thorough else 4)
     tie = tie_broken_sig(st, 'kfb')
+    # ---- tie: the unbounded k-FIFO model (Model/KfqDefs.v)
+    qcases = [({'q': 'kf', 'elem': 'ptr', 'k': '1'}, [['pop'], ['push 1'], ['push 2']]),
+              ({'q': 'kf', 'elem': 'ptr', 'k': '1'}, [['push 1', 'push 2'], ['push 3', 'pop']]),
+              ({'q': 'kf', 'elem': 'ptr', 'k': '1'}, [['push 1'], ['pop'], ['pop']])]
+    for i in range(8 if thorough else 4):
+        k = rng.choice([1, 1, 2, 2, 3])
+        qcases.append(({'q': 'kf', 'elem': 'ptr', 'k': str(k)}, queue_program(rng, rng.choice([2, 2, 3]), rng.randint(2, 4), pushy=rng.choice([0.45, 0.6, 0.75]))))
+    stq = kfb_correspondence(ctx, Hgc, qcases, 8 if thorough else 4, model='kfq', label='kirsch_unbounded', nchoices=120)
+    tie = tie or tie_broken_sig(stq, 'kfq')
     for name, H in sorted(Hs.items()):
         jobs = []
         for (k, segs) in [(1, 1), (1, 3), (2, 2), (3, 2)] + ([(4, 3), (2, 1)] if thorough else []):
